@@ -6,6 +6,7 @@ import (
 	"bytes"
 	"encoding/hex"
 	"fmt"
+	"sort"
 	"strconv"
 	"strings"
 	"math"
@@ -133,6 +134,8 @@ type seqState struct {
 	kinds []string // when non-empty, only these operation kinds are generated
 	joinKey string   // the shared key column of the c03 mode
 	script  []string // when non-empty, the next steps are exactly these kinds, each on the most recent frame
+	dtHint   map[string]string // column -> the layout its date texts were written for
+	negShift bool    // the script's shift moves rows up (negative periods)
 	lastBy  []string // the column list and direction of the last generated sort (reused by the script's "resort")
 	lastAsc bool
 	extra func()   // extra output of the current step, emitted after the status
@@ -326,6 +329,9 @@ func (s *seqState) stepOnce() {
 		status, _ = guard(func() error { return s.derive(f.Loc(labels, cols)) })
 	case "iloc":
 		nr, nc := r.Intn(4), r.Intn(4)
+		if r.Chance(25) {
+			nr = r.Range(3, 6)
+		}
 		rows, cols := make([]int, nr), make([]int, nc)
 		for i := range rows {
 			rows[i] = r.Range(0, max(n-1, 0))
@@ -337,6 +343,12 @@ func (s *seqState) stepOnce() {
 			st := r.Intn(n - nr + 1) // a consecutive run of row positions
 			for i := range rows {
 				rows[i] = st + i
+			}
+			if nr >= 3 && r.Bool() {
+				// the ends of a run, the positions in between shuffled or repeated (looks like a run from outside)
+				for i := 1; i < nr-1; i++ {
+					rows[i] = st + r.Range(0, nr-1)
+				}
 			}
 		}
 		for i := range cols {
@@ -396,7 +408,9 @@ func (s *seqState) stepOnce() {
 		status, _ = guard(func() error { return s.derive(f.SortValues(cols, flags...)) })
 	case "shift":
 		p := r.Range(-2, 3)
-		if bad || (s.mode == "c19" && r.Chance(60)) {
+		if s.negShift && len(s.script) > 0 {
+			p = -r.Range(1, 2)
+		} else if bad || (s.mode == "c19" && r.Chance(60)) {
 			p = r.BoundaryInt(n)
 		}
 		e.Tok("shift")
@@ -680,6 +694,14 @@ func (s *seqState) stepOnce() {
 		layout := Pick(r, []string{"2006-01-02", "2006-01-02 15:04:05", "2006-01-02", "2006-01-02 15:04:05", time.RFC3339, "January 2, 2006"})
 		if bad && r.Chance(30) {
 			layout = Pick(r, []string{"%Y-%m-%", "2006-01-02 %", "%", "%Y-%m-%d", ""})
+		} else if len(s.dtHint) > 0 && r.Chance(60) {
+			hs := make([]string, 0, len(s.dtHint))
+			for k := range s.dtHint {
+				hs = append(hs, k)
+			}
+			sort.Strings(hs)
+			col = Pick(r, hs)
+			layout = s.dtHint[col]
 		}
 		if c, ok := f.Columns[col]; ok {
 			for _, v := range c.Data {
@@ -935,6 +957,15 @@ func genSeq(r *Rng, mode string, steps int) *Enc {
 		df := r.Frame(n, r.Range(0, 4), names)
 		if df.Ncols() > 0 && r.Chance(50) {
 			df.Columns["index"] = &dataframe.Column[any]{Name: "index", Data: r.Column(n, Pick(r, []colKind{kInt, kStr, kMixed}))}
+			if n >= 2 && r.Chance(25) {
+				// a positional index (0,1,2,…) as a stacked frame has it: the positions, repeated with period k
+				k := r.Range(1, n)
+				d := make([]any, n)
+				for i := range d {
+					d[i] = i % k
+				}
+				df.Columns["index"].Data = d
+			}
 		}
 		if r.Chance(12) {
 			sprinkleNaN(r, df)
@@ -953,7 +984,7 @@ func genSeq(r *Rng, mode string, steps int) *Enc {
 		df := dataframe.NewDataFrame()
 		for _, c := range []string{"a", "b", "c", "d"}[:r.Range(1, 4)] {
 			var d []any
-			switch r.Intn(6) {
+			switch Pick(r, []int{0, 1, 2, 2, 3, 4, 5}) {
 			case 0: // floats for Astype int, incl. negative fractions and large values
 				d = make([]any, n)
 				for i := range d {
@@ -966,18 +997,26 @@ func genSeq(r *Rng, mode string, steps int) *Enc {
 				d = make([]any, n)
 				// one family of texts per column (so that a whole column can be parsable under one layout); the last
 				// two families contain values SHORTER than their variable-width layout (RFC3339 with Z, month names)
-				fam := Pick(r, [][]string{
+				fams := [][]string{
 					{"2020-01-02", "1999-12-31", "2021-02-30", "2020-01-02 03:04:05", "x"},
 					{"2020-01-02", "1999-12-31", "2024-02-29"},
 					{"2020-01-02", "1999-12-31", "2021-02-30", "2023-04-31", "2023-02-29"},
 					{"2020-01-02 03:04:05", "1999-12-31 23:59:59"},
-					{"2024-02-29T12:30:00Z", "2024-02-29T12:30:00+02:00", "1999-12-31T23:59:59Z"},
-					{"May 5, 2024", "September 15, 2023", "January 2, 2006"},
+					{"2024-02-29T12:30:00Z", "2024-02-29T12:30:00+02:00", "1999-12-31T23:59:59Z", "2024-02-29T12:30:00.5Z"},
+					{"May 5, 2024", "September 15, 2023", "January 2, 2006", "May 05, 2024"},
 					{"2024-01-05", "2024-01-06 ", " 2024-01-07", "2024-01-08"},
 					{"2024-01-05", "2024-01-06 ", "2024-01-08"},
 					{"2020-01-02 03:04:05.5", "2020-01-02 03:04:05", "2020-01-02 03:04:05.250", "x"},
 					{"2020-01-02 03:04:05.5", "1999-12-31 23:59:59.999", "2020-01-02 03:04:05"},
-				})
+				}
+				fi := r.Intn(len(fams))
+				fam := fams[fi]
+				if s.dtHint == nil {
+					s.dtHint = map[string]string{}
+				}
+				// the layout this family was written for (AddDatetimeIndex is then asked for it most of the time)
+				s.dtHint[c] = []string{"2006-01-02", "2006-01-02", "2006-01-02", "2006-01-02 15:04:05", time.RFC3339, "January 2, 2006",
+					"2006-01-02", "2006-01-02", "2006-01-02 15:04:05", "2006-01-02 15:04:05"}[fi]
 				for i := range d {
 					d[i] = Pick(r, fam)
 					if r.Chance(6) {
@@ -1065,6 +1104,14 @@ func genSeq(r *Rng, mode string, steps int) *Enc {
 		s.pool = []*DF{bigFrame(r, Pick(r, []int{2100, 2500, 3000}), r.Range(1, 2))}
 		s.kinds = []string{"head", "tail", "head", "tail", "rowslice", "setcell", "fillna", "droprow", "shift"}
 		steps = r.Range(3, 4)
+	case mode == "c02" && r.Intn(12) == 0:
+		// a frame whose columns have spare capacity (a row was dropped or appended in place), shifted, then the
+		// source or the result edited in place
+		s.script = []string{Pick(r, []string{"droprow", "appendrow"}), "shift", Pick(r, []string{"setcell", "fillna", "appendrow"})}
+		s.negShift = r.Chance(70)
+		if steps < 3 {
+			steps = 3
+		}
 	case mode == "c08" && r.Intn(50) == 0:
 		s.pool = []*DF{bigFrame(r, Pick(r, []int{513, 515, 1021, 1027}), r.Range(1, 3))}
 		s.kinds = []string{"filter", "filter", "head", "tail", "rowslice", "iloc", "droprow"}
